@@ -323,12 +323,13 @@ CLAIMED = {
              "table every completion is processed with the entry of the operation it was submitted as, the buffers of every operation the "
              "kernel holds stay owned, no two kernel-held operations share a user_data, the table is empty when the kernel holds nothing "
              "and a closed descriptor is no longer named - whatever is submitted, closed and completed in whatever order; four "
-             "counterexample theorems state what the earlier shapes of the table did. 19 theorems. KNOWN FINDINGS "
-             "C20:uring-no-timers (no handshake deadline, no heartbeat tick in the io_uring handler; replayed on every run) and "
+             "counterexample theorems state what the earlier shapes of the table did. 19 theorems. KNOWN FINDING "
              "C20:uring-rare-connection-stall (about one fresh connection in 1500 never carries data; symptom-only, a matching case is "
-             "attributed to it only after three clean replays). Five defects the machinery found were repaired (9th connection never "
+             "attributed to it only after three clean replays). Six defects the machinery found were repaired (9th connection never "
              "attached; in-flight send buffers freed at close and freed memory transmitted; completions attributed to the wrong "
-             "operation after a close; zero-copy notifications shadowed; two zero-copy sends sharing a user_data). Partial: the receive "
+             "operation after a close; zero-copy notifications shadowed; two zero-copy sends sharing a user_data; the handler never "
+             "closed a connection by itself - protocol errors, handshake deadline, heartbeat timeout - and a close was not seen by the "
+             "peer: the former known finding uring-no-timers). Partial: the receive "
              "ring, the worker's SQE submission and wake-up logic, and the spill-over queue are covered by the equivalence scenarios only.",
         note=COMMON_NOTE + "io_uring is a per-process singleton: each backend configuration is a separate harness process.",
         design="§8 C20"),
